@@ -4,8 +4,10 @@
      ddnnf.rs                  prepare_and_apply_incremental_edit, rebuild
      parser/intermediate_representation.rs
                                apply_incremental_edit (the dispatch CONDITIONS only), the cache
-                               predicate of find_and_remove, adjust_intern_cnf, add_unit_clause,
-                               rebuild (DfsPostOrder re-flattening)
+                               predicate of find_and_remove and the cache KEYS, adjust_intern_cnf,
+                               add_unit_clause, rebuild (DfsPostOrder re-flattening)
+   The definitions follow the code AFTER the repairs F14-F17 of /repo (K23, K25, K26, K34); the
+   `_v0` variants are the code before them and exist only for the refutation witnesses.
    NOT modelled: closest_unsplitable_bridge / find_bridges / divide_bridge /
    transform_to_cnf_from_starting_cnf / switch_sub_dag / recompile_everything (their required effect
    is the specification edit_spec below; checked by correspondence against the truth table only).
@@ -80,7 +82,26 @@ Definition max_var (cs : cnf) : Z :=
 
 Definition is_nil {A} (l : list A) : bool := match l with [] => true | _ => false end.
 
+(* the unit path: exactly one added clause, NOTHING to remove (since repair F16; without that
+   condition the removals of a mixed edit were dropped: finding K26, dispatch_v0 below), no new
+   variable, one literal *)
 Definition dispatch (f : facts) (op_add op_rmv : cnf) : decision :=
+  if is_nil op_add && is_nil op_rmv then Decided StTautology
+  else if cache_hit f then Decided StUndo
+  else
+    let adds_new_feature := negb (is_nil op_add) && (ig_nvars f <? max_var op_add) in
+    let general :=
+      if stored_cnf_empty f
+      then (if root_is_node0 f then Decided StRecompile else Decided StTautology)
+      else GraphDependent in
+    match op_add with
+    | [[_]] => if is_nil op_rmv && negb adds_new_feature then Decided StUnitClause else general
+    | _ => general
+    end.
+
+(* the dispatch BEFORE repair F16 (kept only as the subject of C11_dispatch_unit_drops_removal_v0):
+   `op_add.len() == 1 && !adds_new_feature && op_add[0].len() == 1`, whatever op_rmv holds *)
+Definition dispatch_v0 (f : facts) (op_add op_rmv : cnf) : decision :=
   if is_nil op_add && is_nil op_rmv then Decided StTautology
   else if cache_hit f then Decided StUndo
   else
@@ -94,8 +115,9 @@ Definition dispatch (f : facts) (op_add op_rmv : cnf) : decision :=
     | _ => general
     end.
 
-(* the predicate of cache.find_and_remove: equal literal sets and, crosswise, every clause of the
-   request occurs (as a set) among the clauses of the entry.  NOTE: one-directional inclusion. *)
+(* the predicate of cache.find_and_remove: equal literal sets and, crosswise, the clause lists of
+   the request and of the entry are equal AS SETS OF SETS: every clause of the one occurs (as a
+   set) among the clauses of the other, in both directions (since repair F15). *)
 Definition subsetZ (a b : list Z) : bool := forallb (fun x => memZ x b) a.
 Definition set_eqZ (a b : list Z) : bool := subsetZ a b && subsetZ b a.
 Definition vec_value_eq (fst_ snd_ : cnf) : bool :=
@@ -103,7 +125,28 @@ Definition vec_value_eq (fst_ snd_ : cnf) : bool :=
 Definition edit_lits (op_add op_rmv : cnf) : list Z := concat op_add ++ concat op_rmv.
 Definition cache_matches (entry_add entry_rmv op_add op_rmv : cnf) : bool :=
   set_eqZ (edit_lits entry_add entry_rmv) (edit_lits op_add op_rmv)
+  && (vec_value_eq op_add entry_rmv && vec_value_eq entry_rmv op_add
+      && vec_value_eq op_rmv entry_add && vec_value_eq entry_add op_rmv).
+
+(* the predicate BEFORE repair F15: inclusion in one direction only (finding K25; kept only as the
+   subject of C11_cache_matches_partial_refuted_v0) *)
+Definition cache_matches_v0 (entry_add entry_rmv op_add op_rmv : cnf) : bool :=
+  set_eqZ (edit_lits entry_add entry_rmv) (edit_lits op_add op_rmv)
   && vec_value_eq op_add entry_rmv && vec_value_eq op_rmv entry_add.
+
+(* The KEYS of the undo cache (FixedFifo<CachedSubDag>, oldest first; the cached sub-DAGs / graphs
+   themselves are not modelled): (entry_add, entry_rmv) of every entry.
+   find_and_remove takes the first entry (from the front) whose key matches.
+   add_unit_clause re-creates the cache (since repair F17: the unit clause changes graph and clause
+   list without leaving an entry of its own, everything cached describes a formula without it);
+   before the repair it left the cache alone (finding K34, cache_after_unit_v0).
+   What retain_push keeps when an entry is pushed depends on the cached GRAPHS (the conflict
+   function compares their literal nodes) and is not modelled. *)
+Definition cache_keys := list (cnf * cnf).
+Definition cache_find (keys : cache_keys) (op_add op_rmv : cnf) : option (cnf * cnf) :=
+  find (fun e => cache_matches (fst e) (snd e) op_add op_rmv) keys.
+Definition cache_after_unit (keys : cache_keys) : cache_keys := [].
+Definition cache_after_unit_v0 (keys : cache_keys) : cache_keys := keys.
 
 (* ------------------------------------------------------------------------------------------ *)
 (* the stored clause list: simplify_clauses / apply_decisions / adjust_intern_cnf (as sets; the
@@ -152,14 +195,36 @@ Definition simplify_clauses (cs : cnf) : cnf :=
   let '(red, dec) := apply_decisions cs1 units in
   red ++ map (fun d => [d]) dec.
 
-(* retain(|c| rmv.iter().any(|r| set(c) != set(r))): a stored clause is dropped only when it
-   equals EVERY removed clause *)
+(* adjust_intern_cnf.  The retain step (since repair F14): a stored clause is kept unless it
+   equals (as a set) ONE OF the clauses to remove:
+     retain(|c| !rmv.iter().any(|r| set(c) == set(r)))          (only when rmv is not empty) *)
+Definition retain_clauses (stored op_rmv : cnf) : cnf :=
+  match op_rmv with
+  | [] => stored
+  | _ => filter (fun c => negb (existsb (fun r => set_eqZ c r) op_rmv)) stored
+  end.
 Definition adjust_intern_cnf (stored op_add op_rmv : cnf) : cnf :=
-  let kept := match op_rmv with
-              | [] => stored
-              | _ => filter (fun c => existsb (fun r => negb (set_eqZ c r)) op_rmv) stored
-              end in
-  simplify_clauses (kept ++ op_add).
+  simplify_clauses (retain_clauses stored op_rmv ++ op_add).
+
+(* BEFORE repair F14: retain(|c| rmv.iter().any(|r| set(c) != set(r))): a stored clause was dropped
+   only when it equals EVERY removed clause (finding K23; kept only as the subject of
+   C11_multi_removal_refuted_v0) *)
+Definition retain_clauses_v0 (stored op_rmv : cnf) : cnf :=
+  match op_rmv with
+  | [] => stored
+  | _ => filter (fun c => existsb (fun r => negb (set_eqZ c r)) op_rmv) stored
+  end.
+Definition adjust_intern_cnf_v0 (stored op_add op_rmv : cnf) : cnf :=
+  simplify_clauses (retain_clauses_v0 stored op_rmv ++ op_add).
+
+(* The stored clause list after an edit answered Recompile (= the CNF that recompile_everything
+   writes for the compiler): transform_to_cnf_from_starting_cnf adjusts the list first (unless it is
+   empty: early return) and recompile_everything adjusts it AGAIN with the same edit.  Between the
+   two rounds simplify_clauses has unit-propagated the added clauses through the list, so the second
+   round can remove a clause that was SHORTENED to one of the clauses to remove (finding K38). *)
+Definition recompile_stored (stored op_add op_rmv : cnf) : cnf :=
+  let s1 := if is_nil stored then stored else adjust_intern_cnf stored op_add op_rmv in
+  adjust_intern_cnf s1 op_add op_rmv.
 
 (* ------------------------------------------------------------------------------------------ *)
 (* (b) the unit-clause edit on the flattened vector: add_unit_clause + rebuild.
